@@ -232,6 +232,7 @@ func TestVerifC11Client(t *testing.T) {
 		t.Skip("VERIF_OUT not set")
 	}
 	rep := &simReport{Extra: map[string]any{}}
+	simOnStall("c11c_result.json", rep)
 	defer simWriteReport("c11c_result.json", rep)
 	// B1: the cases are Malform.tla's ClientCases as exported by TLC; this file only knows how to produce each of them
 	type specCase struct{ Api, Target, Case string }
@@ -256,7 +257,7 @@ func TestVerifC11Client(t *testing.T) {
 	for _, cs := range todo {
 		for _, nth := range []int{1, 2} {
 			name := fmt.Sprintf("%s/api=%s/response=%d", cs.name, cs.api, nth)
-			synctest.Test(t, func(t *testing.T) {
+			verifsim.Bubble(t, func(t *testing.T) {
 				tr := &verifsim.Trace{}
 				cl := verifsim.NewCluster(tr)
 				cl.InCellblock = true
